@@ -136,7 +136,7 @@ def surplusVehicle (ops : BatOps α B) (env : StratEnv α) (cheap : List (String
           let csLoad : α := (sdGet gc.loads csId).getD 0
           let isCheap := (sdGet cheap cs.parent).getD false
           if surplus < -env.eps ∧ v.desiredSoc - ops.soc v.bat < -env.eps ∧ v.v2g = true
-              ∧ csLoad < env.eps ∧ isCheap = false then do
+              ∧ pyabs csLoad < env.eps ∧ isCheap = false then do
             let dischargePower := pymin (pymin (-surplus) (ops.unloadMaxPower v.bat)) cs.maxPower
             let targetSoc := pymax v.desiredSoc v.dischargeLimit
             let (bat', avg) ← ops.unload v.bat (some dischargePower) (some targetSoc) none
